@@ -1304,5 +1304,6 @@ pub fn run(a: &Args) {
     rt2.block_on(async {
         crate::c12x::run_all(&mut out, &mut rng, a.n / 20 + 10, true).await;
     });
+    crate::stream_api::report(&mut out, "C12");
     out.finish("case = one workload of 3..11 push/flush/compact operations on a real StreamingPersistence + Compactor over a counting, fault-injecting, snapshotting ObjectStore (0..2 faults {error without effect, error after a torn object} at generated call indices), followed by real recovery on the store image at EVERY call boundary (and inside every put); distinct by the op text incl. the fault placement; non-trivial iff some flush returned Ok and the run has a fault, an error or a compaction");
 }
